@@ -18,13 +18,15 @@ package chainprops
 //       without a position, and no transaction changes event rows without
 //       also writing the position.
 //
-// Head sequences respect the property's precondition in its strict reading:
-// whenever the database content contains blocks that are no longer canonical
-// (a fork of depth <= 10 below the stored position happened), presented heads
-// do not exceed position+1 until the rollback has been committed. The weaker
-// readings (a head skipping position+1 right after the fork, or after a
-// failed Sync at position+1) are generated in a labelled minority of
-// histories and are never reported.
+// Head sequences respect the property's precondition: whenever the database
+// content contains blocks that are no longer canonical (a fork of depth <= 10
+// below the stored position happened), presented heads do not exceed
+// position+1 until the head numbered position+1 has been presented. If that
+// Sync fails, later heads are free (judged; this is the open finding
+// reorg-missed-after-failed-sync, and while it is listed as known the
+// generator presents position+1 again instead). The weaker literal reading
+// (the first head of the new branch already skips position+1) is generated
+// in a labelled minority of histories and is never reported.
 
 import (
 	"context"
@@ -67,6 +69,7 @@ const (
 	sigTxErrIgnored   = "syncrange-ignores-tx-error"
 	sigBelowSyncStart = "rollback-below-sync-start"
 	sigReRegLost      = "reregistered-trigger-lost-on-rollback"
+	sigReorgMissed    = "reorg-missed-after-failed-sync"
 )
 
 var (
@@ -453,7 +456,7 @@ type machine struct {
 	unjudged string // reason the history left the judged precondition
 	failedDetect bool
 
-	excl struct{ txErr, belowStart, reReg bool }
+	excl struct{ txErr, belowStart, reReg, reorgMissed bool }
 
 	hist   []string
 	labels map[string]bool
@@ -466,6 +469,7 @@ func newMachine(rt *rapid.T, k *kindSpec) *machine {
 	m.excl.txErr = isKnown("C15", sigTxErrIgnored)
 	m.excl.belowStart = isKnown("C15", sigBelowSyncStart)
 	m.excl.reReg = isKnown("C15", sigReRegLost)
+	m.excl.reorgMissed = isKnown("C15", sigReorgMissed)
 	m.chain = fakechain.New(100, genesisTime)
 	m.tips = []*tip{{blk: m.chain.Genesis()}}
 	if k.setup != nil {
@@ -838,6 +842,9 @@ func (m *machine) doSync(x *fakechain.Block, f faultSpec) *failure {
 		m.failedDetect = true
 		m.label("reorg-detection-failed")
 	}
+	if !m.dirty() {
+		m.failedDetect = false
+	}
 	if fail != nil && m.unjudged != "" {
 		m.label("unjudged-mismatch:" + m.unjudged)
 		return nil
@@ -1053,16 +1060,23 @@ func (m *machine) actSync(l string) *failure {
 	tipN := t.blk.Number()
 	st := m.status(m.shadow)
 	maxN := tipN
-	if st.ok && m.dirty() && st.number+1 < maxN {
-		if m.weak && m.unjudged == "" && rapid.IntRange(0, 2).Draw(m.rt, l+"skipDetection") > 0 {
-			// the weaker reading of the precondition: a head beyond position+1
-			if m.failedDetect {
-				m.unjudged = "weak:skip-after-failed-detection"
-			} else {
-				m.unjudged = "weak:skip-after-fork"
-			}
+	if st.ok && m.dirty() && st.number+1 < maxN && m.unjudged == "" {
+		switch {
+		case m.failedDetect && m.excl.reorgMissed:
+			// the head position+1 was presented but that Sync failed before
+			// the rollback was committed; moving on now is the open finding
+			// reorg-missed-after-failed-sync: present position+1 again
+			recC15.Excluded(sigReorgMissed)
+			maxN = st.number + 1
+		case m.failedDetect:
+			// the precondition is met by the letter (the first new head was
+			// position+1; failures between steps are allowed): judged
+			m.label("moves-on-after-failed-detection")
+		case m.weak && rapid.IntRange(0, 2).Draw(m.rt, l+"skipDetection") > 0:
+			// the weaker reading of the precondition: the first new head is beyond position+1
+			m.unjudged = "weak:skip-after-fork"
 			m.label(m.unjudged)
-		} else if m.unjudged == "" {
+		default:
 			maxN = st.number + 1
 		}
 	}
@@ -1176,7 +1190,7 @@ func c15Assumptions() {
 		"pgfake stands in for PostgreSQL (READ COMMITTED, statement/commit semantics per its conformance tests)",
 		"fakechain stands in for the execution node; the chain changes only between Sync calls (reorgs racing one Sync are out of scope)",
 		"no events are placed in the block numbered SyncStartBlockNumber (whether it is included is left open by the property)",
-		"strict reading of the precondition: while the database holds content of abandoned blocks, presented heads do not exceed position+1 (weaker readings are generated and labelled weak:*, never reported)",
+		"reading of the precondition: after a fork at most 10 below the position, presented heads do not exceed position+1 until the head numbered position+1 has been presented (histories whose first new head already skips it are generated, labelled weak:skip-after-fork and never reported)",
 		"fired_triggers is judged for soundness only in C15 (completeness is C16)",
 	)
 }
